@@ -50,7 +50,7 @@ const rule = "inputs are a pure function of (seed, tier, index): (a) raw byte st
 	"(e) the tar reader accepted a header or the builder accepted the input. Distinct by generator + input digest."
 
 func main() {
-	vf.Main("C04", "exploration", rule, 600, 4000, body)
+	vf.Main("C04", "exploration", rule, 1200, 6000, body)
 }
 
 var procStart = time.Now()
@@ -77,7 +77,7 @@ func body(r *vf.Run) {
 	case "gen":
 		// development aid: generate every input of the tier and report generator panics / sizes
 		pool := newPool(r)
-		n := envInt("C04_N", r.N(3000, 20000))
+		n := envInt("C04_N", r.N(6000, 30000))
 		var total int64
 		for i := 0; i < n; i++ {
 			p, v, st := vf.Recover(func() {
@@ -117,7 +117,7 @@ type crashed struct {
 }
 
 func top(r *vf.Run) {
-	n := r.N(3000, 20000)
+	n := r.N(6000, 30000)
 	n = envInt("C04_N", n)
 	from0 := envInt("C04_FROM", 0)
 	par := envInt("C04_PAR", r.N(8, 12))
